@@ -222,15 +222,17 @@ def step_main(S, env):
             if c:
                 reg[fam.tag_of(fam.classes[n])] = fam.classes[n]
         # pre-state: any subset of the CORRECT entries may already be cached (the representation invariant)
-        if "__mashumaro_subtype_variants__" not in base.__dict__:
-            return fail("C12/registry-attribute-missing")
-        base.__dict__["__mashumaro_subtype_variants__"].clear()
-        base.__dict__["__mashumaro_subtype_variants__"].update(reg)
+        registry = base.__dict__.get("__mashumaro_subtype_variants__")
+        if isinstance(registry, dict):
+            registry.clear()
+            registry.update(reg)
+        # (if a refactoring stores the registry elsewhere the pre-state cannot be injected; the lookups below still run
+        # from the registry's natural state, which is a weaker but still sound obligation)
         bad = observe(fam, tag, 5)
         if bad:
             return fail("C12/%s" % bad, defined=ORDER[:p], cached=sorted(reg), tag=tag)
         # invariant preserved: every cached entry maps a tag to the defined class carrying it
-        for t, c in base.__dict__["__mashumaro_subtype_variants__"].items():
+        for t, c in (registry.items() if isinstance(registry, dict) else ()):
             if fam.tag_of(c) != t or c not in fam.classes.values():
                 return fail("C12/registry-invariant-broken", entry=(t, c))
         if more and p < len(ORDER):
